@@ -1015,6 +1015,8 @@ class Executor(object):
             r = self.call_function(name, a2, gg, ins)
             res.append((g, r))
         self.stats['split_calls'] += len(res)
+        if not res:
+            raise DeadPath()
         return merge_many(res)
 
     def run_function(self, fn, args, guard, bindings=()):
